@@ -533,6 +533,13 @@ class Model:
                 if mode == 4 and s['fn'] == 'r':
                     a0 = 77 + i            # written through the reference parameter: later clauses and the caller see it
                     pred.trig.add('write_through_param')
+                if mode == 5:
+                    # the side effect destroys an object - the mock whose function is executing, or the husk it was
+                    # moved from: everything a destruction does happens now, inside the call (non-fatal reports),
+                    # and the call then runs to its end
+                    if e.p['nobj'] in self.objs:
+                        self.op_rmobj(pred, e.p['nobj'])
+                        pred.trig.add('mock_destroyed_in_own_call' if e.p['nobj'] == o else 'husk_destroyed_in_call')
                 if mode == 1:
                     result = ('exc', 'S', e.id, i)
                     pred.trig.add('se_throws')
